@@ -5,8 +5,10 @@ import (
 	"context"
 	"encoding/json"
 	"fmt"
+	"sync"
 	"sync/atomic"
 	"testing"
+	"time"
 
 	"github.com/go-gl/glfw/v3.1/glfw"
 	"github.com/gordonklaus/portaudio"
@@ -310,7 +312,7 @@ func c26RunProgress(c c26Progress) (sig string, err error) {
 type c26Stop struct {
 	Video bool   `json:"video"`
 	Audio bool   `json:"audio"`
-	How   string `json:"how"` // "close" (window asks to close), "cancel-poll" (cancel from the window poll hook), "cancel-serial" (cancel from the serial writer), "cancel-async"
+	How   string `json:"how"` // "close" (window asks to close), "cancel-poll" (cancel from the window poll hook), "cancel-serial" (cancel from the serial writer), "expire-serial" (the context ends like a deadline: DeadlineExceeded), "cancel-async"
 	At    int    `json:"at"`  // frame number (1-based) in which the request is issued
 	// LCDOff > 0: the program switches the LCD off after that many frames and goes on reporting one byte per
 	// (slightly more than a) frame from a delay loop. Only with requests issued from the serial writer or
@@ -345,6 +347,24 @@ var c26FrameBeacon = []byte{
 
 type c26Unwind struct{}
 
+// c26Expiring is a context whose end is a deadline's: Err() reports context.DeadlineExceeded once Done is closed.
+type c26Expiring struct {
+	done chan struct{}
+	once sync.Once
+}
+
+func (e *c26Expiring) Deadline() (time.Time, bool)   { return time.Time{}, false }
+func (e *c26Expiring) Done() <-chan struct{}         { return e.done }
+func (e *c26Expiring) Value(interface{}) interface{} { return nil }
+func (e *c26Expiring) Err() error {
+	select {
+	case <-e.done:
+		return context.DeadlineExceeded
+	default:
+		return nil
+	}
+}
+
 type c26Writer struct {
 	n      int32
 	onByte func(n int)
@@ -364,7 +384,7 @@ func c26RunStop(c c26Stop) (sig string, err error) {
 	defer vf.Recover(&sig, &err)
 	prog := c26FrameBeacon
 	if c.LCDOff != 0 {
-		if c.LCDOff < 1 || c.LCDOff > 200 || (c.How != "close-serial" && c.How != "cancel-serial" && c.How != "cancel-async") {
+		if c.LCDOff < 1 || c.LCDOff > 200 || (c.How != "close-serial" && c.How != "cancel-serial" && c.How != "cancel-async" && c.How != "expire-serial") {
 			return "invalid-case", fmt.Errorf("lcd_off needs 1..200 and a request that does not depend on the window being polled")
 		}
 		prog = c26BeaconOff(c.LCDOff)
@@ -374,6 +394,11 @@ func c26RunStop(c c26Stop) (sig string, err error) {
 	}
 	rom := c11Build(c11Spec{Len: -1, Program: prog})
 	ctx, cancel := context.WithCancel(context.Background())
+	if c.How == "expire-serial" {
+		// a context that ends the way a deadline does (Done closes, Err reports DeadlineExceeded) - without any clock
+		ec := &c26Expiring{done: make(chan struct{})}
+		ctx, cancel = ec, func() { ec.once.Do(func() { close(ec.done) }) }
+	}
 	defer cancel()
 	const runaway = 4 // frames after the request at which the harness unwinds Run itself
 	requested := int32(0)
@@ -386,7 +411,7 @@ func c26RunStop(c c26Stop) (sig string, err error) {
 			atomic.StoreInt32(&reqFrame, int32(n))
 			g.Window.Close = true // same goroutine as the frame loop that asks ShouldClose
 		}
-		if c.How == "cancel-serial" && n == c.At {
+		if (c.How == "cancel-serial" || c.How == "expire-serial") && n == c.At {
 			atomic.StoreInt32(&requested, 1)
 			atomic.StoreInt32(&reqFrame, int32(n))
 			cancel()
@@ -473,7 +498,7 @@ func c26RunStop(c c26Stop) (sig string, err error) {
 	<-finished
 	atomic.StoreInt32(&stopAudio, 1)
 	frames := int(atomic.LoadInt32(&w.n))
-	if c.Video && c.How != "cancel-serial" && c.How != "cancel-async" && c.How != "close-serial" {
+	if c.Video && c.How != "cancel-serial" && c.How != "cancel-async" && c.How != "close-serial" && c.How != "expire-serial" {
 		frames = polls
 	}
 	defer func() {
@@ -643,7 +668,7 @@ func TestC26(t *testing.T) {
 		var n int64
 		idx := 0
 		for cfg := 0; cfg < 4; cfg++ {
-			for _, how := range []string{"close", "cancel-poll", "cancel-serial", "cancel-async", "close-serial"} {
+			for _, how := range []string{"close", "cancel-poll", "cancel-serial", "cancel-async", "close-serial", "expire-serial"} {
 				if cfg&1 == 0 && (how == "close" || how == "cancel-poll" || how == "close-serial") {
 					continue // no window without video output
 				}
@@ -672,7 +697,7 @@ func TestC26(t *testing.T) {
 
 	c.Rapid("stop-drawn", 160, 3000, func(rt *rapid.T) {
 		cas := c26Stop{Video: rapid.Bool().Draw(rt, "video"), Audio: rapid.Bool().Draw(rt, "audio"), At: rapid.IntRange(1, 60).Draw(rt, "at")}
-		hows := []string{"cancel-serial", "cancel-async"}
+		hows := []string{"cancel-serial", "cancel-async", "expire-serial"}
 		if cas.Video {
 			hows = append(hows, "close", "cancel-poll", "close-serial", "close-serial")
 		}
